@@ -484,14 +484,38 @@ func parseC03(a args) {
 			GW := memoWrap(G, M, root)
 			for k := 0; k < 3 && n < want; k++ {
 				w := randInput(r, opts.alphabet, a.num("maxlen", 7))
-				c := &caseT{G: GW, W: w, B: 1, Adm: true, Root: root}
-				c.Asks = append(c.Asks, askT{N: root, P: 1})
+				bud := budget
+				step := 2
+				if k == 2 && a.num("long", 1) == 1 {
+					// a long input (hundreds of positions): the short random input repeated
+					pat := w
+					if len(pat) == 0 {
+						pat = []int{97}
+					}
+					L := 70 + r.Intn(a.num("maxlong", 260))
+					w = make([]int, L)
+					for i := range w {
+						w[i] = pat[i%len(pat)]
+					}
+					if r.Intn(2) == 0 {
+						w[L-1] = 98 + 97 - w[L-1] // a different last byte: forces backtracking over the whole input
+					}
+					bud = 40 * budget
+					step = 37
+				}
+				// the parsed file sits anywhere in a file set (base offset 1..40)
+				base := 1
+				if r.Intn(2) == 0 {
+					base = 2 + r.Intn(39)
+				}
+				c := &caseT{G: GW, W: w, B: base, Adm: true, Root: root}
+				c.Asks = append(c.Asks, askT{N: root, P: base})
 				for _, nt := range nts {
-					for p := 0; p <= len(w); p += 2 {
-						c.Asks = append(c.Asks, askT{N: nt, P: 1 + p})
+					for p := 0; p <= len(w); p += step {
+						c.Asks = append(c.Asks, askT{N: nt, P: base + p})
 					}
 				}
-				if l, ok := c03Line(c, budget); ok {
+				if l, ok := c03Line(c, bud); ok {
 					o.put(l)
 					n++
 				} else {
@@ -518,6 +542,7 @@ func parseC17(a args) {
 	}
 	built := map[string]*builtG{}
 	prev := map[string]int{}
+	aborted := map[string]int{}
 	n := 0
 	readLines(a.str("in", ""), func(line []byte) {
 		var c c17case
@@ -530,6 +555,9 @@ func parseC17(a args) {
 			b = &builtG{t: t, ps: build(c.G, t)}
 			built[c.Fam] = b
 		}
+		if aborted[c.Fam] >= 2 {
+			return // a smaller size of this family was already stopped: the judge has its verdict, larger sizes would only burn time
+		}
 		content := bytesOf(c.W)
 		// a run that needs more than 40x the calls of the largest smaller size of its family is stopped: its count
 		// is then already beyond what the doubling predicate allows, and the judge will say so
@@ -537,6 +565,7 @@ func parseC17(a args) {
 		if prev[c.Fam] > 0 && c.N >= 8 {
 			limit = 40 * prev[c.Fam]
 		}
+		abortedNow := false
 		run := func() (calls int, ok bool) {
 			b.t.ev, b.t.stack, b.t.count, b.t.callLimit = nil, nil, 0, limit
 			b.t.attempts, b.t.nfails, b.t.bodyRuns = map[[2]int]bool{}, map[[2]int]bool{}, map[[2]int]int{}
@@ -548,6 +577,7 @@ func parseC17(a args) {
 						panic(r)
 					}
 					calls, ok = ctx.CallCount(), true
+					abortedNow = true
 				}
 			}()
 			node, _, err := b.ps[c.Root-1].Parse(ctx, data.EmptyIntMap, f.Pos(0))
@@ -559,6 +589,9 @@ func parseC17(a args) {
 			c2, ok2 := run()
 			e["calls1"], e["calls2"], e["ok"] = c1, c2, ok1 && ok2
 			prev[c.Fam] = c1
+			if abortedNow {
+				aborted[c.Fam]++
+			}
 		}); m != "" {
 			e["calls1"], e["calls2"], e["ok"], e["panic"] = 0, 0, false, m
 		}
